@@ -49,3 +49,10 @@ C('C20', 'three-path differential (ffi.new initializer / whole-object assignment
 C('C21', 'stateful reference model (reachability + expected destructor/free counts) driven in lock-step with random histories; callbacks monitored at the moment they run; ASan decides use-after-free/double free',
   'Exploration: random 40-operation histories over ffi.new objects, p[0] aliases, ffi.gc wrappers (chains, reference cycles through the destructor, gc(p,None)), release/with/re-release, new_allocator allocations, from_buffer exports of a resizable bytearray, handles; gc.collect() after every step on half of the histories; exactly-once, never-while-reachable, export-lock and handle identity/distinctness checked against the model.',
   'Reachability model assumes CPython refcounting and cffi\'s documented keep-alive edges; releasing an object that live aliases/wrappers still use is not generated (user error).')
+
+C('C27', 'history + structural-key model over weakref-tracked ctypes requested through independent paths; quiescent-point invariant on the backend unique_cache found via gc.get_objects()',
+  'Exploration: random 80-step histories of typeof(str) on 3 in-line FFIs and the C parser, direct backend constructors, reference drops, FFI deletion, gc.collect(), rebuild-after-death through two paths; after every step same key <=> same object over all live ctypes; unique_cache has no dead entry and exactly one entry per live non-aggregate ctype.',
+  'Key computed from public attributes only; harness structs are opaque; unique_cache discovered heuristically (bytes keys, weakref values).')
+C('C32', 'determinism across fresh processes/hash seeds + icontract postcondition on ffiplatform.flatten (explicit inverse parser) + recorded CRC32 inputs decoded back to the inputs',
+  'Exploration: random (cdef list incl. include(), preamble, nested keyword) inputs with equivalent respellings (must share key/name) and 20 kinds of near-miss neighbours (must differ); hashed key recorded by wrapping binascii.crc32 and decoded back; names compared over 6 processes with different PYTHONHASHSEED.',
+  'Texts are NUL-free except for the probe of the recorded finding; keyword arguments = Extension kwds + tag + engine choice.')
